@@ -213,6 +213,7 @@ func crashCfg(prop string, cas int, tier string) CrashCfg {
 		}
 	case "C07":
 		c.WriteHeavy = true
+		c.Dense = cas%4 == 1
 		c.Restarts = cas%2 == 0
 		c.Unstable = cas%4 != 3
 		c.NOps = 40
